@@ -26,11 +26,11 @@ Definition is_iface (t : ty) : bool := match t with TIface => true | _ => false 
 
 (* fp: the build has fast paths (default) — a nested []interface{} is then decoded by the generated
    DecSliceIntfY, which does not consult SliceElementReset *)
-Fixpoint dec_refl (fp : bool) (o : dopts) (t : ty) (d : gv) (it : item) {struct it} : res gv :=
+Fixpoint dec_refl_x (dyn fp : bool) (o : dopts) (t : ty) (d : gv) (it : item) {struct it} : res gv :=
   match it with
   | INil => Ok (zero_of t)            (* decodeValue at top level, kSlice element, kMap value: rvSetZero *)
   | _ =>
-    let '(b, d, wrap) := peel t d in
+    let '(b, d, wrap) := unbox dyn o (peel t d) in      (* kInterface: a held struct is copied to an addressable value and decoded into *)
     do r <-
     match b with
     | TInt | TStr => scalar_of b it
@@ -45,7 +45,7 @@ Fixpoint dec_refl (fp : bool) (o : dopts) (t : ty) (d : gv) (it : item) {struct 
                     | [] => Ok []
                     | x :: r =>
                       let cur := match old with c :: _ => if o_slice_elem_reset o && negb (fp && is_iface e) then zero_of e else c | [] => zero_of e end in
-                      do y <- dec_refl fp o e cur x ;;
+                      do y <- dec_refl_x dyn fp o e cur x ;;
                       do ys <- go r (tl old) ;; Ok (y :: ys)
                     end) l old ;;
         Ok (VSlice (Some xs))
@@ -65,7 +65,7 @@ Fixpoint dec_refl (fp : bool) (o : dopts) (t : ty) (d : gv) (it : item) {struct 
                                   | Some c => if o_map_value_reset o then zero_of e else c
                                   | None => zero_of e
                                   end in
-                       do y <- dec_refl fp o e cur x ;; go r (assoc_set key y m)
+                       do y <- dec_refl_x dyn fp o e cur x ;; go r (assoc_set key y m)
                      | _ => Err EBadDesc
                      end
                    end) kvs old ;;
@@ -86,7 +86,7 @@ Fixpoint dec_refl (fp : bool) (o : dopts) (t : ty) (d : gv) (it : item) {struct 
                         | Some i =>
                           do y <- (match x with
                                    | INil => Ok (field_nil (snd (nth i fs ([], TInt))) (nth i xs (VInt 0)))   (* kStructField: TryNil *)
-                                   | _ => dec_refl fp o (snd (nth i fs ([], TInt))) (nth i xs (VInt 0)) x
+                                   | _ => dec_refl_x dyn fp o (snd (nth i fs ([], TInt))) (nth i xs (VInt 0)) x
                                    end) ;;
                           go r (set_nth xs i y)
                         | None => go r xs                      (* structFieldNotFound: swallow (ErrorIfNoField is C16's) *)
@@ -103,7 +103,7 @@ Fixpoint dec_refl (fp : bool) (o : dopts) (t : ty) (d : gv) (it : item) {struct 
                       if i <? length fs then
                         do y <- (match x with
                                    | INil => Ok (field_nil (snd (nth i fs ([], TInt))) (nth i xs (VInt 0)))   (* kStructField: TryNil *)
-                                   | _ => dec_refl fp o (snd (nth i fs ([], TInt))) (nth i xs (VInt 0)) x
+                                   | _ => dec_refl_x dyn fp o (snd (nth i fs ([], TInt))) (nth i xs (VInt 0)) x
                                    end) ;;
                         go r (S i) (set_nth xs i y)
                       else go r (S i) xs
@@ -128,22 +128,22 @@ Definition has_fastpath (t : ty) : bool :=
 
 (* one element: v[j] = DecodeInt64() / DecodeString() (a stream nil reads as 0 / ""), or
    d.decode(&v[j]) for interface{} — SliceElementReset is not consulted *)
-Definition fast_slice_elem (o : dopts) (e : ty) (cur : gv) (x : item) : res gv :=
+Definition fast_slice_elem (dyn : bool) (o : dopts) (e : ty) (cur : gv) (x : item) : res gv :=
   match e with
-  | TIface => dec_refl true o TIface cur x
+  | TIface => dec_refl_x dyn true o TIface cur x
   | _ => match x with INil => Ok (zero_of e) | _ => scalar_of e x end
   end.
 
-Fixpoint fast_slice_go (o : dopts) (e : ty) (l : list item) (old : list gv) : res (list gv) :=
+Fixpoint fast_slice_go (dyn : bool) (o : dopts) (e : ty) (l : list item) (old : list gv) : res (list gv) :=
   match l with
   | [] => Ok []
   | x :: r =>
     let cur := match old with c :: _ => c | [] => zero_of e end in
-    do y <- fast_slice_elem o e cur x ;;
-    do ys <- fast_slice_go o e r (tl old) ;; Ok (y :: ys)
+    do y <- fast_slice_elem dyn o e cur x ;;
+    do ys <- fast_slice_go dyn o e r (tl old) ;; Ok (y :: ys)
   end.
 
-Fixpoint fast_map_go (o : dopts) (e : ty) (kvs : list (item * item)) (m : list (str * gv)) : res (list (str * gv)) :=
+Fixpoint fast_map_go (dyn : bool) (o : dopts) (e : ty) (kvs : list (item * item)) (m : list (str * gv)) : res (list (str * gv)) :=
   match kvs with
   | [] => Ok m
   | (k, x) :: r =>
@@ -155,23 +155,23 @@ Fixpoint fast_map_go (o : dopts) (e : ty) (kvs : list (item * item)) (m : list (
                  let cur := if negb (o_map_value_reset o) && negb (o_iface_reset o)
                             then match assoc key m with Some c => c | None => VIface None end
                             else VIface None in
-                 dec_refl true o TIface cur x
+                 dec_refl_x dyn true o TIface cur x
                | _ => match x with INil => Ok (zero_of e) | _ => scalar_of e x end
                end) ;;
-      fast_map_go o e r (assoc_set key y m)
+      fast_map_go dyn o e r (assoc_set key y m)
     | _ => Err EBadDesc
     end
   end.
 
-Definition dec_fast (o : dopts) (t : ty) (d : gv) (it : item) : res gv :=
+Definition dec_fast_x (dyn : bool) (o : dopts) (t : ty) (d : gv) (it : item) : res gv :=
   match it with
   | INil => Ok (zero_of t)                       (* ctyp == valueTypeNil: return nil, v != nil *)
   | _ =>
     match t, it with
     | TSlice e, IArr l =>
-      do xs <- fast_slice_go o e l (match d with VSlice (Some xs) => xs | _ => [] end) ;; Ok (VSlice (Some xs))
+      do xs <- fast_slice_go dyn o e l (match d with VSlice (Some xs) => xs | _ => [] end) ;; Ok (VSlice (Some xs))
     | TMap e, IMap kvs =>
-      do m <- fast_map_go o e kvs (match d with VMap (Some m) => m | _ => [] end) ;; Ok (VMap (Some m))
+      do m <- fast_map_go dyn o e kvs (match d with VMap (Some m) => m | _ => [] end) ;; Ok (VMap (Some m))
     | _, _ => Err EBadDesc
     end
   end.
@@ -182,9 +182,14 @@ Definition dec_builtin (t : ty) (d : gv) (it : item) : res gv :=
 
 (* the path the decoder takes for a destination of type t (default build: fast path types go
    through the generated functions; with codec.notfastpath everything goes through reflection) *)
-Definition dec_impl (fastpath : bool) (o : dopts) (t : ty) (d : gv) (it : item) : res gv :=
-  if fastpath && has_fastpath t then dec_fast o t d it
+Definition dec_impl_x (dyn fastpath : bool) (o : dopts) (t : ty) (d : gv) (it : item) : res gv :=
+  if fastpath && has_fastpath t then dec_fast_x dyn o t d it
   else match t with
        | TInt | TStr => dec_builtin t d it
-       | _ => dec_refl fastpath o t d it
+       | _ => dec_refl_x dyn fastpath o t d it
        end.
+
+(* the universe of the theorems: interfaces hold nil / int64 / string *)
+Definition dec_refl : bool -> dopts -> ty -> gv -> item -> res gv := dec_refl_x false.
+Definition dec_fast : dopts -> ty -> gv -> item -> res gv := dec_fast_x false.
+Definition dec_impl : bool -> dopts -> ty -> gv -> item -> res gv := dec_impl_x false.
